@@ -299,7 +299,7 @@ func c20Requests() []c20Req {
 		{raw: c20Raw("GET", "http://abs.example/p%0Aq?z=%0A#frag", "HTTP/1.1", "Host", "other.example"),
 			remote: "10.0.0.1:1", rewrite: hx.HS("/"), reqid: "-", mitm: "-", recorder: "-", resphdr: ""},
 		{raw: c20Raw("GET", "/", "HTTP/1.1", "Host", ""),
-			remote: "{remote}:1", rewrite: "-", reqid: "-", mitm: "-", recorder: "100:0", resphdr: ""},
+			remote: "{remote}:1", rewrite: "-", reqid: "-", mitm: "-", recorder: "302:0", resphdr: ""},
 	}
 }
 
@@ -389,7 +389,7 @@ func c20RandReq(g *hx.Gen) c20Req {
 		r.reqid = hx.HS(txt(1))
 	}
 	if g.Rng.Chance(2, 3) {
-		r.recorder = fmt.Sprintf("%d:%d", hx.Pick(g.Rng, []int{200, 204, 301, 404, 500, 100, 999}), hx.Pick(g.Rng, []int{0, 1, 17, 4096}))
+		r.recorder = fmt.Sprintf("%d:%d", hx.Pick(g.Rng, []int{200, 204, 301, 404, 500, 101, 999}), hx.Pick(g.Rng, []int{0, 1, 17, 4096}))
 		h := http.Header{}
 		for _, name := range []string{"Content-Type", "X-Resp", "X-Inj"} {
 			if g.Rng.Bool() {
